@@ -19,7 +19,7 @@ CLAIMS = {
         note=G_NOTE),
     'C05': dict(
         engine='G+X', level='translation_validation', design_ref='DESIGN.md 4 C05',
-        technique='differential symbolic execution (CrossHair/z3) of scoping templates vs reference scope stack; symbolic operation sequences on utils.Scope vs two-level model; symbolic names through the reserved-name predicate',
+        technique='differential symbolic execution (CrossHair/z3) of scoping templates vs reference scope stack; metamorphic differential execution of macro programs vs their inlined form; symbolic operation sequences on utils.Scope vs two-level model; symbolic names through the reserved-name predicate',
         text='Per scoping template the solver decides visibility probes for every initial binding state; Scope operations and the reserved-name predicate are decided for all operation codes/keys/values resp. all code points within the bound.',
         note=G_NOTE),
     'C13': dict(
@@ -49,9 +49,9 @@ CLAIMS = {
         note='Trusted: CrossHair regex/string models + chsym plugin; validator stand-in (accept iff bit len(candidate) of a symbolic mask) replaces the Python parser; reference interpreter for contexts.'),
     'C11': dict(
         engine='X', level='model_checking', design_ref='DESIGN.md 4 C11',
-        technique='symbolic execution (CrossHair/z3) of Token operations, statement-argument parsers and the front end on symbolic text: every produced/raised token must satisfy source[pos:pos+len]==token',
-        text='Inductive step per Token operation and bounded producer/front-end harnesses decided over all code points of each shape; line/column closed form; well-formed skeletons never rejected.',
-        note='Trusted: CrossHair string/regex models + chsym plugin (Token.__new__ modelled). Error tokens produced by the Python parser for invalid expressions are outside (C boundary); cross-compile state outside.'),
+        technique='symbolic execution (CrossHair/z3) of Token operations, statement-argument parsers and the front end on symbolic text: every produced/raised token must satisfy source[pos:pos+len]==token; solver-enumerated compile histories (clause x offset sequences) for the error tokens of real compilations',
+        text='Inductive step per Token operation and bounded producer/front-end harnesses decided over all code points of each shape; line/column closed form; well-formed skeletons never rejected; for 19 erroneous clauses at 6 offsets every sequence of 2-3 compilations in one process reports token, offset, line and column of the compilation that raised.',
+        note='Trusted: CrossHair string/regex models + chsym plugin (Token.__new__ modelled). In the compile-history family each compilation is concrete (compile() is a C boundary); which clause, at which offset, in which order is the solver\'s choice.'),
     'C12': dict(
         engine='G', level='translation_validation', design_ref='DESIGN.md 4 C12',
         technique='symbolic execution (CrossHair/z3) of compiled render functions with a symbolic failing evaluation point and exception class; oracle on exception type/args and parsed message records',
@@ -59,12 +59,12 @@ CLAIMS = {
         note='Trusted: CrossHair models; expected positions computed from the template text by the harness. A private BaseException subclass stands for KeyboardInterrupt/SystemExit.'),
     'C09': dict(
         engine='G', level='translation_validation', design_ref='DESIGN.md 4 C09',
-        technique='metamorphic differential symbolic execution (CrossHair/z3): template with METAL vs its hand-inlined METAL-free equivalent, both compiled by the real compiler, symbolic bindings',
+        technique='metamorphic differential symbolic execution (CrossHair/z3): template with METAL vs its inlined METAL-free equivalent (hand-written and grammar-generated pairs), both compiled by the real compiler, symbolic bindings',
         text='Per enumerated (macro library, caller) pair the solver decides that use-macro/extend-macro renders exactly like the inlined element with slots filled, for all bindings in the bound.',
         note='Trusted: CrossHair models; the inliner vlib/metal_inline.py (the METAL semantics as stated by the property).'),
     'C10': dict(
         engine='G', level='translation_validation', design_ref='DESIGN.md 4 C10',
-        technique='differential symbolic execution (CrossHair/z3): compiled render function with a recording translation function vs reference i18n semantics',
+        technique='differential symbolic execution (CrossHair/z3): compiled render function with an argument-revealing translation function vs reference i18n semantics (hand-written and grammar-generated programs); metamorphic pairs across macros and slot fillers',
         text='Per enumerated i18n template the solver decides, for all bindings, the number and order of translation calls and every argument (msgid, mapping, default, domain, context, target) through an argument-revealing translation function.',
         note=G_NOTE),
     'C19': dict(
@@ -74,7 +74,7 @@ CLAIMS = {
         note=G_NOTE),
     'C20': dict(
         engine='X', level='model_checking', design_ref='DESIGN.md 4 C20',
-        technique='symbolic execution (CrossHair/z3) of the text-mode front end and of compiled text templates with symbolic source characters / inserted values',
+        technique='symbolic execution (CrossHair/z3) of the text-mode front end and of compiled text templates with symbolic source characters / inserted values; solver-enumerated render histories x output encodings for text template files',
         text='Text-mode tokenizer and front end decided over all code points of each source shape; rendered output of text templates decided for all inserted values of k symbolic code points.',
         note='Trusted: CrossHair models + chsym plugin; the ${...} delimiting is covered by the C06 kernel.'),
     'C18': dict(
@@ -94,7 +94,7 @@ CLAIMS = {
         note='Trusted: the model file system (POSIX process-crash semantics), perfect-hash assumption, CrossHair. Interleaving points are inserted by AST instrumentation at check time (no hooks in /repo).'),
     'C14': dict(
         engine='S+G', level='model_checking', design_ref='DESIGN.md 4 C14',
-        technique='symbolic execution (CrossHair/z3) of the statement-instrumented real cook_check/cook for two threads with a symbolic schedule; symbolic execution of compiled templates for determinism / no carried state',
+        technique='symbolic execution (CrossHair/z3) of the statement-instrumented real cook_check/cook for two threads with a symbolic schedule; symbolic execution of compiled templates for determinism / no carried state; symbolic execution of the real loader over a symbolic existence matrix (caller-owned inputs untouched)',
         text='Every statement-level interleaving of two threads within the bounded symbolic schedule returns what each thread returns alone; repeated/independent/interleaved renders agree for all symbolic arguments in range.',
         note='Trusted: statement-granular scheduling model (CPython may pre-empt inside a statement), stubbed mtime/read/compile step, CrossHair. Interleaving points are inserted by AST instrumentation at check time (no hooks in /repo).'),
     'C03': dict(
